@@ -80,6 +80,10 @@ def function_placements():
     out.append(("deco:local", deco + "def outer():\n    t = 'loc'\n    mk = deco\n    @mk(t)\n    @mk(t + '2')\n    def f(x=t):\n        return x\n    t = 'late'\n    return f\nprint(outer()())\n"))
     out.append(("deco:param-captured", deco + "def outer(t, mk):\n    def peek():\n        return t\n    @mk(t)\n    def f(x=t):\n        return x\n    return f, peek\nf, p = outer('par', deco)\nprint(f(), p())\n"))
     out.append(("deco:class-member", deco + "class K:\n    t = 'mem'\n    mk = staticmethod(deco)\n    @deco(t)\n    def f(self, x=t):\n        return x\nprint(K().f())\n"))
+    # a decorator written as a BARE NAME that is a class member / a local shared with a nested def / shadows a global
+    out.append(("deco:bare-class-member", deco + "def tag(f):\n    return lambda *a: ('global', f(*a))\nclass K:\n    def tag(f):\n        return lambda *a: ('member', f(*a))\n    tag2 = deco('m')\n    @tag\n    @tag2\n    def f(self=None, x=1):\n        return x\nprint(K.f())\n"))
+    out.append(("deco:bare-captured-local", deco + "def outer():\n    log = deco('loc')\n    def peek():\n        return log\n    @log\n    def f(x=2):\n        return x\n    return f(), peek() is log\nprint(outer())\n"))
+    out.append(("deco:bare-shadowed-global", deco + "mark = deco('glob')\ndef outer(mark):\n    def inner():\n        global mark\n        @mark\n        def f():\n            return 3\n        return f()\n    return inner()\nprint(outer(None))\n"))
     out.append(("deco:class-in-function", deco + "def outer(t):\n    class K:\n        u = t + '!'\n        @deco(u)\n        def f(self, x=u, y=t):\n            return x, y\n    return K\nprint(outer('z')().f())\n"))
     return out
 
